@@ -14,7 +14,8 @@
 //
 // A history is {"N":cells,"ev":[{"e":"wb","len":L},{"e":"we"},{"e":"pb","la":bool},
 //                               {"e":"pe","has":bool,"msg":[words...]}, ...]}
-// Message `id` of L words: word0 = "/<'A'+id>\0\0", word1 = "," + (L-2) x 'i', word k>=2 = id*16+k.
+// Message `id` of L words: word0 = "/<'A'+id>\0\0"; id % 3 selects the shape (spec/ThreadLinkWords.tla): ints (word1 = "," + (L-2) x 'i',
+// word k>=2 = id*16+k), one blob (",b", its size, payload words id*16+k) or one string (",s", one letter repeated, NUL).
 // L = 0 is an oversized write (the constructor returns 0 and nothing may be queued).
 #include <rtosc/thread-link.h>
 #include <rtosc/rtosc.h>
@@ -45,6 +46,10 @@ static void do_write(rtosc::ThreadLink *link, int id, int L) {
     char addr[3] = {'/', (char)('A' + id % 60), 0};
     if (L == 0) { // oversized: one string argument longer than MaxMsg
         std::string big(4 * maxlen_words + 8, 'x'); rtosc_arg_t a; a.s = big.c_str(); link->writeArray(addr, "s", &a); return; }
+    int shape = L < 3 ? 0 : id % 3;                                  // spec/ThreadLinkWords.tla: ints, one blob, one string
+    if (shape == 1) { std::vector<uint8_t> pay(4 * (L - 3)); for (int k = 3; k < L; ++k) { uint32_t v = (uint32_t)(id * 16 + k); pay[4 * (k - 3)] = v >> 24; pay[4 * (k - 3) + 1] = v >> 16; pay[4 * (k - 3) + 2] = v >> 8; pay[4 * (k - 3) + 3] = v; }
+        rtosc_arg_t a; a.b.len = (int32_t)pay.size(); a.b.data = pay.data(); link->writeArray(addr, "b", &a); return; }
+    if (shape == 2) { std::string str(4 * (L - 2) - 1, (char)(97 + id % 26)); rtosc_arg_t a; a.s = str.c_str(); link->writeArray(addr, "s", &a); return; }
     rtosc_arg_t a[8]; std::string tags(L - 2, 'i');
     for (int k = 2; k < L; ++k) a[k - 2].i = id * 16 + k;
     link->writeArray(addr, tags.c_str(), a);
